@@ -166,7 +166,10 @@ pub fn exec(op: &str, t: &mut Toks, cx: &mut Ctx) -> Option<String> {
     }
 }
 
-fn one<T: Sc>(rng: &mut Rng, n: usize, class: usize, bad: bool) -> String {
+fn one<T: Sc>(rng: &mut Rng, n: usize, class: usize, bad: bool) -> String { one_k::<T>(rng, n, class, bad, 0) }
+/// `wide` > 0: every stored value and vector component is multiplied by a factor of general magnitude
+/// (10^[-3,3] for 2, 10^[-12,12] for 3): rounding, cancellation and summation order become visible
+fn one_k<T: Sc>(rng: &mut Rng, n: usize, class: usize, bad: bool, wide: usize) -> String {
     let n1 = n.saturating_sub(1);
     let (mut sub, mut main, mut sup): (Vec<T>, Vec<T>, Vec<T>) = match class {
         0 => { let (a, b, c) = (T::gen(rng, 0, 0), T::gen(rng, 0, 0), T::gen(rng, 0, 0)); (vec![a; n1], vec![b; n], vec![c; n1]) }   // constant diagonals
@@ -181,10 +184,12 @@ fn one<T: Sc>(rng: &mut Rng, n: usize, class: usize, bad: bool) -> String {
         let k = rng.below(n);
         if k == 0 { main[0] = T::zero(); } else { main[k - 1] = T::from_i(1); main[k] = sub[k - 1] * sup[k - 1]; if k >= 2 { sub[k - 2] = T::zero(); } }
     }
+    if wide > 0 && !T::is_exact() { for x in sub.iter_mut().chain(main.iter_mut()).chain(sup.iter_mut()) { *x = *x * T::gen(rng, 0, wide); } }
     if bad { match rng.below(3) { 0 => { sub.push(T::from_i(1)); } 1 => { sup.pop(); } _ => { main.push(T::from_i(2)); } } }
     let rl = if bad && rng.chance(50) { n + 1 } else { n };
     let vl = if rng.chance(8) { n + 1 + rng.below(2) } else { n };
-    format!("tri {} {} {} {} {} {} {} {} {}", T::TAG, wr_vec(&sub), wr_vec(&main), wr_vec(&sup), gen_vec_str::<T>(rng, rl, 10, 0), gen_vec_str::<T>(rng, vl, 10, 0),
+    let vk = if T::is_exact() { 0 } else { wide };
+    format!("tri {} {} {} {} {} {} {} {} {}", T::TAG, wr_vec(&sub), wr_vec(&main), wr_vec(&sup), gen_vec_str::<T>(rng, rl, 10, vk), gen_vec_str::<T>(rng, vl, 10, vk),
         T::gen(rng, 8, 0).wr(), rng.below(n + 2), rng.below(n + 2))
 }
 
@@ -194,6 +199,7 @@ pub fn gen(rng: &mut Rng, tier: Tier, out: &mut Vec<String>) {
         out.push(one::<Q>(rng, n, class, r == 2 && class == 1));
         out.push(one::<f64>(rng, n, class, false));
         if class < 5 { out.push(one::<Cmplx>(rng, n, class, false)); }
+        if class < 5 && r < reps.min(2).max(reps / 3) { out.push(one_k::<f64>(rng, n, class, false, 2 + r % 2)); if class % 2 == 1 { out.push(one_k::<Cmplx>(rng, n, class, false, 2)); } }
     } } }
     // every (i, j) index of small matrices, exhaustively
     for n in 1..=4usize { for i in 0..=n { for j in 0..=n {
